@@ -229,7 +229,8 @@ COQPROJECT_HEAD = """-Q . CppUVerif
 
 def coq_makefile():
     """_CoqProject lists every .v under coq/ (regenerated when the set of files changes)."""
-    files = sorted(os.path.relpath(f, COQ) for f in glob.glob(COQ + "/**/*.v", recursive=True))
+    files = sorted(os.path.relpath(f, COQ) for f in glob.glob(COQ + "/**/*.v", recursive=True)
+                   if not re.match(r"(Probe_|Dbg_|D_|Tmp_|Scratch_).*|.*_tmp\.v$", os.path.basename(f)))      # scratch files of a builder at work
     text = COQPROJECT_HEAD + "\n".join(files) + "\n"
     cp = os.path.join(COQ, "_CoqProject")
     mk = os.path.join(COQ, "Makefile")
